@@ -11,6 +11,7 @@ from tqdm.auto import tqdm
 from pgmpy import config
 from pgmpy.base import DAG
 from pgmpy.factors.discrete import TabularCPD
+from pgmpy.global_vars import logger
 from pgmpy.utils import compat_fns
 
 
@@ -474,7 +475,14 @@ class DynamicBayesianNetwork(DAG):
             ):
                 raise ValueError("CPD defined on variable not in the model", cpd)
 
-        self.cpds.extend(cpds)
+        for cpd in cpds:
+            for prev_cpd_index in range(len(self.cpds)):
+                if self.cpds[prev_cpd_index].variable == cpd.variable:
+                    logger.warning(f"Replacing existing CPD for {cpd.variable}")
+                    self.cpds[prev_cpd_index] = cpd
+                    break
+            else:
+                self.cpds.append(cpd)
 
     def get_cpds(self, node=None, time_slice=None):
         """
